@@ -14,7 +14,7 @@ ASSUMPTIONS = ["a dangling view is only observable once the freed memory has bee
 T1 = b"t1"
 
 
-def make_case(rng, nested=False, consumer=False):
+def make_case(rng, nested=False, consumer=False, midplain=False):
     nparts = rng.randint(1, 4)
     logs = {}
     for p in range(nparts):
@@ -25,8 +25,14 @@ def make_case(rng, nested=False, consumer=False):
             msgs.append(("plain", off, None if rng.random() < 0.3 else rand_bytes(rng, 0, 6), rand_bytes(rng, 0, 200)))
             off += 1
         if nested and p == 0:
-            inner = ("wrap", rng.choice(["gzip", "snappy"]), msgs[-1][1], msgs)
-            logs[(T1, p)] = [("wrap", rng.choice(["gzip", "snappy"]), msgs[-1][1], [inner])]
+            if midplain and len(msgs) >= 2:
+                # the middle layer starts with a plain message, followed by a wrapper (the client drops that plain message: known
+                # finding F13 - here only the STABILITY of what is exposed is judged)
+                inner = ("wrap", rng.choice(["gzip", "snappy"]), msgs[-1][1], msgs[1:])
+                logs[(T1, p)] = [("wrap", rng.choice(["gzip", "snappy"]), msgs[-1][1], [msgs[0], inner])]
+            else:
+                inner = ("wrap", rng.choice(["gzip", "snappy"]), msgs[-1][1], msgs)
+                logs[(T1, p)] = [("wrap", rng.choice(["gzip", "snappy"]), msgs[-1][1], [inner])]
         elif kind == "plain":
             logs[(T1, p)] = msgs
         else:
@@ -54,14 +60,14 @@ def make_case(rng, nested=False, consumer=False):
                                    T("produce_messages", [1, 1, 0, [pm(b"t2", 0, None, rand_bytes(rng, 1, 50))]])]))
         ops.append(reread)
     ops += [T("churn", [300]), reread, T("drop_results"), T("churn", [50])]
-    return {"cluster": spec, "ops": ops, "meta": {"first": first, "nested": nested, "consumer": consumer}}
+    return {"cluster": spec, "ops": ops, "meta": {"first": first, "nested": nested, "consumer": consumer, "midplain": midplain}}
 
 
 def gen(rng, tier):
     n = 150 if tier == "quick" else 2500
     cases = []
     for i in range(n):
-        cases.append(make_case(rng, nested=(i % 8 == 0), consumer=(i % 3 == 0)))
+        cases.append(make_case(rng, nested=(i % 4 == 0), consumer=(i % 3 == 0), midplain=(i % 8 == 0)))
     return cases
 
 
@@ -91,6 +97,8 @@ def oracle(case, recs, cl):
     first = _messages(recs[m["first"]]["impl"].args[0], m["consumer"])
     # the first reading against the log content (byte-identical to what the broker sent)
     for (t, p), log in case["cluster"]["logs"].items():
+        if m.get("midplain") and p == 0:
+            continue      # content of this layout is C02's known class; stability is checked below
         want = [(o, k or b"", v or b"") for (o, k, v) in kproto.flatten_entries(log)]
         got = first.get((t, p), [])
         if got != want:
